@@ -2,7 +2,7 @@ SPECIFICATION Spec
 CONSTANTS
   Inst = {1, 2}
   MaxSteps = 2
-  WantSets = {{}, {"p0"}}
+  WantSets = {{}, {"p0"}, {"p0", "rp"}}
   Txs = {"A", "B"}
   AllowCancel = TRUE
   DevNoCopy = FALSE
